@@ -23,7 +23,7 @@ WORKERS = {"quick": 4, "thorough": 16}
 CONTEXTS = ["bare", "params", "photos", "photos+params", "wrapped", "extended-daughters", "extended-params", "space-before-semicolon"]
 REQUIRED = {**{f"context:{c}": 135 for c in CONTEXTS}, "published-name-in-all-contexts": 1, "prefix-pairs-all": 1, "published-after-user-registration": 135,
             "user-name": 200, "user-name:special-char:.": 3, "user-name:special-char:+": 3, "user-name:special-char:*": 3, "user-name:special-char:(": 3,
-            "user-name:ends-in-nonword": 5, "user-name:extends-published": 20, "user-name:prefix-of-published": 20, "registration:several-calls": 20, "model-alias-of-a-registered-model": 10, "registration:published-name-among-the-new-ones": 10, "registration-after-a-refused-parse": 10, "registered-names-second-parse": 20, "grammar-accessed-before-registration": 10, "grammar-accessed-between-registrations": 5, "grammar-accessed-after>=2-registrations-and-before-another": 3, "crlf-text": 10,
+            "user-name:ends-in-nonword": 5, "user-name:extends-published": 20, "user-name:prefix-of-published": 20, "registration:several-calls": 20, "user-name:starts-with-a-digit": 10, "model-alias-of-a-registered-model": 10, "registration:published-name-among-the-new-ones": 10, "registration-after-a-refused-parse": 10, "registered-names-second-parse": 20, "grammar-accessed-before-registration": 10, "grammar-accessed-between-registrations": 5, "grammar-accessed-after>=2-registrations-and-before-another": 3, "crlf-text": 10,
             "near-miss-rejected": 300, "near-miss:dot-replaced": 3, "near-miss:alias-misspelled": 5, "near-miss:alias-of-an-earlier-file": 5, "near-miss:registered-on-another-instance": 20, "alias-name-extends-model": 20}
 EXHAUSTIVE_NOTE = "all 135 published names x 8 contexts and all ordered prefix pairs are enumerated across the workers in every run"
 ASSUMPTIONS = ["labels next to model names extend them by letters, digits or '_' only (PHSP-x is, by the language's own tokenisation, PHSP with parameter -x)",
@@ -174,7 +174,7 @@ def check_reject(ctx, word, user_calls=(), params=False, alias=None, why="near-m
 def user_names(rng, models):
     out = []
     base = rng.choice(models)
-    kinds = ["random", "random", "extends", "prefix", "dash", "special", "ends-nonword"]
+    kinds = ["random", "random", "extends", "prefix", "dash", "special", "ends-nonword", "digit-first"]
     k = rng.choice(kinds)
     if k == "random":
         out = "".join(rng.choice("ABCDEFGHXYZ") for _ in range(rng.randint(3, 6))) + rng.choice(["", "_1", "2", "_v2"])
@@ -184,6 +184,8 @@ def user_names(rng, models):
         out = base[: max(3, len(base) - rng.randint(1, 2))] if len(base) > 3 else base + "Q"
     elif k == "dash":
         out = rng.choice(["MY-MODEL", "A-B-C", "NEW-" + base, base + "-MOD"])
+    elif k == "digit-first":
+        out = rng.choice(["3BODY_FLAT", "2HDM-TYPE2", "4PI", "0NUBB", "5D_x"]) if rng.random() < 0.9 else "3" + base
     elif k == "special":
         out = rng.choice(["MY.MODEL", "MOD+X", "M*STAR", "MOD(1)", "A.B.C", "X+Y+Z", "F(x)G", "ST*R*"])
     else:
@@ -256,6 +258,8 @@ def run(ctx):
                     ctx.hit("user-name:special-char:" + ch)
             if not re.match(r"[A-Za-z0-9_]", u[-1]):
                 ctx.hit("user-name:ends-in-nonword")
+            if kind == "digit-first":
+                ctx.hit("user-name:starts-with-a-digit")
             if kind == "extends":
                 ctx.hit("user-name:extends-published")
             if kind == "prefix":
